@@ -4,6 +4,7 @@ import (
 	"bytes"
 	"crypto/ecdsa"
 	"fmt"
+	"reflect"
 
 	"github.com/btcsuite/btcd/btcec/v2/schnorr"
 	"github.com/btcsuite/btcd/btcutil"
@@ -33,7 +34,18 @@ func mustECDSA(k *SecpKey) *ecdsa.PrivateKey {
 	return p
 }
 
-func protoCloneMsg(m sdk.Msg) sdk.Msg { return proto.Clone(m).(sdk.Msg) }
+func protoCloneMsg(m sdk.Msg) sdk.Msg {
+	// round trip through the wire format (proto.Clone cannot merge math.Int fields)
+	bz, err := proto.Marshal(m)
+	if err != nil {
+		panic(harnessError{err.Error()})
+	}
+	c := reflect.New(reflect.TypeOf(m).Elem()).Interface().(sdk.Msg)
+	if err := proto.Unmarshal(bz, c); err != nil {
+		panic(harnessError{err.Error()})
+	}
+	return c
+}
 
 type withdrawArgs struct {
 	Action   string   `json:"action"` // process | replace | mine | finalize | approve
@@ -500,7 +512,7 @@ func (w *World) genBridgeOps(r *Rand) []*ELOp {
 			if r.Chance(0.05) {
 				price = 0
 			}
-			ops = append(ops, &ELOp{Kind: "withdraw", Addr: w.Btc.userAddress(r, kind), U1: amount, U2: price, Guards: true, Fee: fmt.Sprint(r.Intn(100000))})
+			ops = append(ops, &ELOp{Kind: "withdraw", Addr: w.Btc.userAddress(r, kind), U1: amount, U2: price, Guards: kind != "empty" && kind != "long", Fee: fmt.Sprint(r.Intn(100000))})
 		case k < 80:
 			ops = append(ops, &ELOp{Kind: "rbf", U1: pick(r, pendingIDs), U2: uint64(r.Intn(120)), Guards: true})
 		default:
